@@ -104,6 +104,16 @@ var (
 )
 
 func descD(v ssa.Value, d int, seen map[ssa.Value]bool) string {
+	if len(descBind) > 0 && v != nil {
+		// a value of a helper that is currently bound to one call site is
+		// described for that call: neither read from nor written to the cache
+		if pf := v.Parent(); pf != nil && descBind[pf] != nil {
+			before := descDirty
+			s := descD0(v, d, seen)
+			descDirty = true || before
+			return s
+		}
+	}
 	if s, ok := descCache[v]; ok {
 		return s
 	}
@@ -128,6 +138,16 @@ func descD0(v ssa.Value, d int, seen map[ssa.Value]bool) string {
 	rec := func(x ssa.Value) string { return descD(x, d-1, seen) }
 	switch x := v.(type) {
 	case *ssa.Parameter:
+		if c := descBind[x.Parent()]; c != nil {
+			// bound to one call site (Walker frame / inlined result): the argument of that call
+			if k := paramIndex(x); k >= 0 && k < len(c.Call.Args) {
+				delete(descBind, x.Parent())
+				s := rec(c.Call.Args[k])
+				descBind[x.Parent()] = c
+				descDirty = true
+				return s
+			}
+		}
 		if isNewHelper(x.Parent()) && seen[x] {
 			descDirty = true
 		}
@@ -141,6 +161,9 @@ func descD0(v ssa.Value, d int, seen map[ssa.Value]bool) string {
 		}
 		return fmt.Sprintf("$%d", paramIndex(x))
 	case *ssa.FreeVar:
+		if a, ok := freeVarAlias(x); ok {
+			return "free:" + a
+		}
 		return "free:" + x.Name()
 	case *ssa.Const:
 		if x.IsNil() {
@@ -200,7 +223,7 @@ func descD0(v ssa.Value, d int, seen map[ssa.Value]bool) string {
 	case *ssa.Call:
 		if h := newHelperCallee(x); h != nil && h.Signature.Results().Len() == 1 && !seen[x] {
 			seen[x] = true
-			s, ok := helperResultDesc(h, 0, rec)
+			s, ok := helperResultDesc(x, h, 0, rec)
 			delete(seen, x)
 			if ok {
 				return s
@@ -218,7 +241,7 @@ func descD0(v ssa.Value, d int, seen map[ssa.Value]bool) string {
 		if c, isCall := x.Tuple.(*ssa.Call); isCall && !seen[x] {
 			if h := newHelperCallee(c); h != nil {
 				seen[x] = true
-				s, ok := helperResultDesc(h, x.Index, rec)
+				s, ok := helperResultDesc(c, h, x.Index, rec)
 				delete(seen, x)
 				if ok {
 					return s
@@ -487,6 +510,32 @@ type wstate struct {
 	fr   *wframe
 }
 
+// curRet: while Visit is called for a Return whose boolean result is not a
+// constant, the Walker visits it once per outcome (having followed the
+// corresponding literal, exactly as for `if v { return true }; return false`)
+// and publishes the outcome here; retBool consults it.
+var curRet struct {
+	r       *ssa.Return
+	idx     int
+	outcome bool
+	konst   bool // the outcome is a constant selected by the incoming edge of a phi
+}
+
+// boolResultIndex returns the index of the only boolean result of fn, or -1.
+func boolResultIndex(fn *ssa.Function) int {
+	res := fn.Signature.Results()
+	k := -1
+	for i := 0; i < res.Len(); i++ {
+		if b, ok := res.At(i).Type().Underlying().(*types.Basic); ok && b.Kind() == types.Bool {
+			if k >= 0 {
+				return -1
+			}
+			k = i
+		}
+	}
+	return k
+}
+
 // Run returns a witness for the first hit, or nil when no hit is reachable.
 func (w *Walker) Run(start Point) *Witness {
 	type item struct {
@@ -530,8 +579,64 @@ func (w *Walker) Run(start Point) *Witness {
 		}
 		return false
 	}
+	// descriptions inside a frame are made for the frame's call site
+	savedBind := descBind
+	defer func() { descBind = savedBind }()
+	bind := func(fr *wframe) {
+		descBind = map[*ssa.Function]*ssa.Call{}
+		for k, v := range savedBind {
+			descBind[k] = v
+		}
+		for f := fr; f != nil; f = f.parent {
+			if h := f.call.Call.StaticCallee(); descBind[h] == nil || f == fr {
+				descBind[h] = f.call
+			}
+		}
+	}
+	// results of inlined helper calls, remembered along the path (tag \x03)
+	callNo := map[*ssa.Call]int{}
+	var vals []ssa.Value
+	valNo := map[ssa.Value]int{}
+	record := func(env string, call *ssa.Call, v ssa.Value) string {
+		ci, ok := callNo[call]
+		if !ok {
+			ci = len(callNo)
+			callNo[call] = ci
+		}
+		vi, ok := valNo[v]
+		if !ok {
+			vi = len(vals)
+			vals = append(vals, v)
+			valNo[v] = vi
+		}
+		pre := fmt.Sprintf("\x03c%d=", ci)
+		if i := strings.Index(env, pre); i >= 0 {
+			j := strings.Index(env[i:], "\x02")
+			env = env[:i] + env[i+j+1:]
+		}
+		return env + pre + fmt.Sprint(vi) + "\x02"
+	}
+	lookup := func(env string, call *ssa.Call) ssa.Value {
+		ci, ok := callNo[call]
+		if !ok {
+			return nil
+		}
+		pre := fmt.Sprintf("\x03c%d=", ci)
+		i := strings.Index(env, pre)
+		if i < 0 {
+			return nil
+		}
+		rest := env[i+len(pre):]
+		j := strings.Index(rest, "\x02")
+		vi := 0
+		fmt.Sscan(rest[:j], &vi)
+		if vi < len(vals) {
+			return vals[vi]
+		}
+		return nil
+	}
 	push(start.B, -1, start.I, -1, nil, "", nil)
-	mkWitness := func(idx int, hit ssa.Instruction) *Witness {
+	mkWitness := func(idx int, hit ssa.Instruction, extra *Lit) *Witness {
 		wt := &Witness{Hit: hit}
 		for i := idx; i >= 0; i = items[i].parent {
 			wt.Blocks = append([]*ssa.BasicBlock{items[i].st.b}, wt.Blocks...)
@@ -539,28 +644,61 @@ func (w *Walker) Run(start Point) *Witness {
 				wt.Lits = append([]Lit{*items[i].lit}, wt.Lits...)
 			}
 		}
+		if extra != nil {
+			wt.Lits = append(wt.Lits, *extra)
+		}
 		return wt
+	}
+	// edgeEnv applies the contradiction pruning for literal l of condition cond;
+	// ok=false when the edge contradicts an earlier test on this path.
+	edgeEnv := func(env string, cond ssa.Value, l Lit) (string, bool) {
+		if st := w.isStable(l.Atom); st || pureCond(cond, 0) {
+			tag := "\x00"
+			if st {
+				tag = "\x01"
+			}
+			yes, no := tag+l.Atom+"=T\x02", tag+l.Atom+"=F\x02"
+			mine, other := yes, no
+			if !l.Pos {
+				mine, other = no, yes
+			}
+			if strings.Contains(env, other) {
+				return env, false
+			}
+			if !strings.Contains(env, mine) {
+				env += mine
+			}
+		}
+		return env, true
+	}
+	// phiEdge resolves a phi defined in block b against the incoming edge
+	phiEdge := func(v ssa.Value, b *ssa.BasicBlock, st wstate) ssa.Value {
+		if ph, ok := v.(*ssa.Phi); ok && ph.Block() == b && st.pred >= 0 && st.pred < len(ph.Edges) && st.from == 0 {
+			return ph.Edges[st.pred]
+		}
+		return v
 	}
 	for qi := 0; qi < len(items); qi++ {
 		it := items[qi]
 		b := it.st.b
 		fr := it.st.fr
+		bind(fr)
 		stopped, clobbered := false, false
 		for i := it.st.from; i < len(b.Instrs); i++ {
 			ins := b.Instrs[i]
 			if _, ok := ins.(*ssa.Phi); ok {
 				continue
 			}
+			ret, isRet := ins.(*ssa.Return)
 			// the return of an inlined new helper continues after the call
-			if _, isRet := ins.(*ssa.Return); isRet && (fr != nil || isNewHelper(b.Parent())) {
-				if fr != nil && fr.tail {
-					// tail-called helper: its return is the function's return
-					if w.Visit != nil && w.Visit(ins) == wHit {
-						return mkWitness(qi, ins)
-					}
-				} else if fr != nil {
+			if isRet && !(fr != nil && fr.tail) && (fr != nil || isNewHelper(b.Parent())) {
+				if fr != nil {
 					cont := after(fr.call)
-					push(cont.B, -1, cont.I, qi, nil, stableOnly(it.st.env), fr.parent)
+					env := stableOnly(it.st.env)
+					if len(ret.Results) == 1 {
+						env = record(env, fr.call, phiEdge(ret.Results[0], b, it.st))
+					}
+					push(cont.B, -1, cont.I, qi, nil, env, fr.parent)
 				} else {
 					for _, site := range helperIdx[b.Parent()].sites {
 						cont := after(site)
@@ -570,20 +708,62 @@ func (w *Walker) Run(start Point) *Witness {
 				stopped = true
 				break
 			}
+			// a return of the walked function (or of a tail-called helper) with a
+			// non-constant boolean result: one visit per outcome
+			if isRet && w.Visit != nil {
+				if k := boolResultIndex(b.Parent()); k >= 0 && k < len(ret.Results) {
+					v := phiEdge(retVal(ret, k), b, it.st)
+					if _, isConst := constBool(v); !isConst {
+						for _, outcome := range []bool{true, false} {
+							l := litOf(v, outcome)
+							if w.Edge != nil && !w.Edge(l) {
+								continue
+							}
+							if _, ok := edgeEnv(it.st.env, v, l); !ok {
+								continue
+							}
+							curRet.r, curRet.idx, curRet.outcome = ret, k, outcome
+							res := w.Visit(ins)
+							curRet.r = nil
+							if res == wHit {
+								return mkWitness(qi, ins, &l)
+							}
+						}
+						stopped = true
+						break
+					} else if v != retVal(ret, k) {
+						// constant selected by the incoming edge of a phi
+						cv, _ := constBool(v)
+						curRet.r, curRet.idx, curRet.outcome, curRet.konst = ret, k, cv, true
+						res := w.Visit(ins)
+						curRet.r, curRet.konst = nil, false
+						if res == wHit {
+							return mkWitness(qi, ins, nil)
+						}
+						stopped = true
+						break
+					}
+				}
+			}
 			if w.Visit != nil {
 				switch w.Visit(ins) {
 				case wHit:
-					return mkWitness(qi, ins)
+					return mkWitness(qi, ins, nil)
 				case wStop:
 					stopped = true
 				}
 			}
-			if stopped {
+			if stopped || isRet {
+				stopped = true
 				break
 			}
 			if h := newHelperCallee(ins); h != nil && (fr == nil || fr.depth < 4) && !inFrames(fr, h) {
 				// facts do not cross the frame boundary: the same helper may run twice with different arguments
-				push(h.Blocks[0], -1, 0, qi, nil, stableOnly(it.st.env), enter(ins.(*ssa.Call), fr))
+				env := it.st.env
+				if clobbered {
+					env = stableOnly(env)
+				}
+				push(h.Blocks[0], -1, 0, qi, nil, stableOnly(env), enter(ins.(*ssa.Call), fr))
 				stopped = true // the walk continues inside the helper
 				break
 			}
@@ -609,9 +789,7 @@ func (w *Walker) Run(start Point) *Witness {
 		if ifi, ok := last.(*ssa.If); ok {
 			cond := ifi.Cond
 			// resolve a phi defined in this block against the incoming edge
-			if ph, ok := cond.(*ssa.Phi); ok && ph.Block() == b && it.st.pred >= 0 && it.st.pred < len(ph.Edges) && it.st.from == 0 {
-				cond = ph.Edges[it.st.pred]
-			}
+			cond = phiEdge(cond, b, it.st)
 			if un, ok := cond.(*ssa.UnOp); ok && un.Op == token.NOT {
 				if ph, ok := un.X.(*ssa.Phi); ok && ph.Block() == b && it.st.pred >= 0 && it.st.pred < len(ph.Edges) && it.st.from == 0 {
 					if c, ok := ph.Edges[it.st.pred].(*ssa.Const); ok && c.Value != nil && c.Value.Kind() == constant.Bool {
@@ -619,8 +797,26 @@ func (w *Walker) Run(start Point) *Witness {
 					}
 				}
 			}
+			// a condition that is the result of an inlined helper call: the value it returned on this path
+			flip := false
+			var resolvedFor *ssa.Call
+			{
+				base, neg := cond, false
+				for {
+					un, ok := base.(*ssa.UnOp)
+					if !ok || un.Op != token.NOT {
+						break
+					}
+					base, neg = un.X, !neg
+				}
+				if cl, ok := base.(*ssa.Call); ok && newHelperCallee(cl) != nil {
+					if v := lookup(it.st.env, cl); v != nil {
+						cond, flip, resolvedFor = v, neg, cl
+					}
+				}
+			}
 			for k, s := range b.Succs {
-				outcome := k == 0
+				outcome := (k == 0) != flip
 				if c, ok := cond.(*ssa.Const); ok && c.Value != nil && c.Value.Kind() == constant.Bool {
 					if constant.BoolVal(c.Value) != outcome {
 						continue // infeasible
@@ -628,29 +824,31 @@ func (w *Walker) Run(start Point) *Witness {
 					push(s, predIdx(s), 0, qi, nil, it.st.env, fr)
 					continue
 				}
-				l := litOf(cond, outcome)
+				var l Lit
+				if resolvedFor != nil {
+					h := resolvedFor.Call.StaticCallee()
+					prev, had := descBind[h]
+					descBind[h] = resolvedFor
+					l = litOf(cond, outcome)
+					if had {
+						descBind[h] = prev
+					} else {
+						delete(descBind, h)
+					}
+				} else {
+					l = litOf(cond, outcome)
+				}
 				if w.Edge != nil && !w.Edge(l) {
 					continue
 				}
 				env := it.st.env
 				if s.Dominates(b) {
-					env = stableOnly(env) // loop back edge: values are redefined
+					env = loopReset(env) // loop back edge: values are redefined
 				}
-				if st := w.isStable(l.Atom); st || pureCond(cond, 0) {
-					tag := "\x00"
-					if st {
-						tag = "\x01"
-					}
-					yes, no := tag+l.Atom+"=T\x02", tag+l.Atom+"=F\x02"
-					mine, other := yes, no
-					if !l.Pos {
-						mine, other = no, yes
-					}
-					if strings.Contains(env, other) {
+				if resolvedFor == nil {
+					var ok bool
+					if env, ok = edgeEnv(env, cond, l); !ok {
 						continue // contradicts an earlier test of the same atom
-					}
-					if !strings.Contains(env, mine) {
-						env += mine
 					}
 				}
 				push(s, predIdx(s), 0, qi, &l, env, fr)
@@ -660,7 +858,7 @@ func (w *Walker) Run(start Point) *Witness {
 		for _, s := range b.Succs {
 			env := it.st.env
 			if s.Dominates(b) {
-				env = stableOnly(env)
+				env = loopReset(env)
 			}
 			push(s, predIdx(s), 0, qi, nil, env, fr)
 		}
@@ -731,9 +929,25 @@ func pureCond(v ssa.Value, depth int) bool {
 	return false
 }
 
-// stableOnly keeps the entries of declared-stable atoms (tag \x01).
+// stableOnly drops the recorded outcomes of pure conditions (they may have
+// been clobbered); entries of declared-stable atoms (tag \x01) and of inlined
+// call results (tag \x03: SSA values) are kept.
 func stableOnly(env string) string {
 	if !strings.Contains(env, "\x00") {
+		return env
+	}
+	var sb strings.Builder
+	for _, part := range strings.SplitAfter(env, "\x02") {
+		if strings.HasPrefix(part, "\x01") || strings.HasPrefix(part, "\x03") {
+			sb.WriteString(part)
+		}
+	}
+	return sb.String()
+}
+
+// loopReset: across a loop back edge SSA values are redefined too.
+func loopReset(env string) string {
+	if !strings.Contains(env, "\x00") && !strings.Contains(env, "\x03") {
 		return env
 	}
 	var sb strings.Builder
